@@ -80,7 +80,7 @@ fn scenarios() -> Vec<Vec<Step>> {
 }
 
 const POSITIONS: usize = 57;
-const IRQ_VARIANTS: usize = 9;
+const IRQ_VARIANTS: usize = 10;
 
 /// Flattened (scenario, step, variant) table of the systematic part; variant 0 = undisturbed.
 fn systematic_table() -> &'static Vec<(usize, usize, usize)> {
@@ -130,6 +130,7 @@ fn systematic(run: u64) -> Option<C14Case> {
                 5 => vec![Irq::CrcError { len: 11 }],
                 6 => vec![Irq::Timeout],
                 7 => [vec![Irq::Spurious, Irq::Spurious, Irq::Preamble], orig].concat(),
+                8 => vec![Irq::PreambleTimeout],
                 _ => vec![Irq::Preamble, Irq::Timeout],
             };
         }
@@ -227,7 +228,8 @@ fn gen_irqs(r: &mut Rng, op: &Op, cancel_pct: u64) -> Vec<Irq> {
             break;
         }
         let len = *r.pick(&[0u8, 1, 12, 23, 64, 200, 255]);
-        v.push(match r.weighted(&[40, 15, 8, 8, 12, 12]) {
+        v.push(match r.weighted(&[40, 15, 8, 8, 12, 12, 5]) {
+            6 => Irq::PreambleTimeout,
             0 => Irq::Done { len, cad: r.chance(1, 2) },
             1 => Irq::Timeout,
             2 => Irq::CrcError { len },
